@@ -64,7 +64,7 @@ def main():
         if meta.get("patch_applies"):
             for p in [prop, *others]:
                 t0 = time.time()
-                r = sh(f"cd /verif && PYTHONPATH={wt}/src QUANSINO_REPO={wt} /venv/bin/python harness/qcheck.py {p} --tier quick",
+                r = sh(f"cd /verif && VERIF_EVIDENCE_DIR=/tmp/seedverify/evidence VERIF_REPLAY_DIR=/tmp/seedverify/replays PYTHONPATH={wt}/src QUANSINO_REPO={wt} /venv/bin/python harness/qcheck.py {p} --tier quick",
                        timeout=3000)
                 viol = [ln for ln in r.stdout.splitlines() if ln.startswith("VIOLATION")]
                 checks[p] = {"exit": r.returncode, "violation_lines": viol[:4], "wall_s": round(time.time() - t0, 1),
